@@ -309,12 +309,59 @@ def _stmt(fnode, node):
     return best
 
 
+def tile_only(rep, ix, cls, meth, wc, rule):
+    """the four block updates of an assembly method tile the (i, j) block: rows [2 S_i + a n_i, + n_i), columns
+    [2 S_j + b n_j, + n_j) for (a, b) in {0, 1}^2 (x slopes then y slopes of each sensor).  Used by C02 as the layout
+    precondition of its duplicate-sensor clause; C01 decides the same under `tile` together with what the blocks hold."""
+    I = Interp(ix, opaque={wc.fq})
+    o = Obj(cls)
+    args = [Rat.sym("threads", ("int",))] if len(meth.params) > 1 else []
+    I.paths(meth, args, self_obj=o)
+    stores = [s for s in I.store_log if s[1] == "self.covariance_matrix" and (s[0] == meth.fq or s[0].startswith(cls.fq + "."))]
+    loops = [l for l in I.loop_log if l[0] == meth.fq]
+    lvs = []
+    for l in loops:
+        v = l[2]
+        if isinstance(v, Rat) and isinstance(v.single_atom(), Sym) and vk(v) not in [vk(x) for x in lvs]:
+            lvs.append(v)
+    by_depth = sorted(lvs, key=lambda v: int(v.single_atom().name.split("@")[1]))
+    if len(stores) != 4 or len(by_depth) < 3:
+        rep.unknown(rule, meth.fq, "expected four block updates of self.covariance_matrix inside the (layer, i, j) loops, found %d" % len(stores),
+                    meth.where())
+        return
+    wi, wj = by_depth[1], by_depth[2]
+    S = lambda w: Rat.atom(Fn("sum", (Rat.atom(Fn("getitem", (Rat.sym("self.n_subaps", ("attr",)), ("slice", Rat.const(0), w, None)))), None)))
+    n_of = lambda w: Rat.atom(Fn("getitem", (Rat.sym("self.n_subaps", ("attr",)), w)))
+    seen = set()
+    for s in stores:
+        idx, lineno = s[2], s[4]
+        where = "%s:%d" % (meth.module.relpath, lineno)
+        if not (isinstance(idx, tuple) and len(idx) == 2 and all(isinstance(x, tuple) and x[0] == "slice" and x[3] is None for x in idx)):
+            rep.unknown(rule, meth.fq, "block index is not a pair of plain slices: %s" % nf(idx, 100), where)
+            return
+        (_, r0_, r1_, _), (_, c0_, c1_, _) = idx
+        a_ = (r0_ - 2 * S(wi)) / n_of(wi)
+        b_ = (c0_ - 2 * S(wj)) / n_of(wj)
+        ac, bc = a_.real_const() if isinstance(a_, Rat) else None, b_.real_const() if isinstance(b_, Rat) else None
+        okq = ac in (0.0, 1.0) and bc in (0.0, 1.0) and same_value(r1_ - r0_, n_of(wi)) and same_value(c1_ - c0_, n_of(wj))
+        if not okq:
+            rep.violation(rule, "%s: block [%s]" % (meth.fq, nf(idx, 140)),
+                          "block rows [%s, %s) x cols [%s, %s) is not a quadrant of the (i, j) block at (2 S_i, 2 S_j) with extents (n_i, n_j): "
+                          "with sensors of different sub-aperture counts the slopes of one sensor are correlated with the wrong slopes of "
+                          "the other, so a duplicated sensor is not reproduced" % (nf(r0_, 60), nf(r1_, 60), nf(c0_, 60), nf(c1_, 60)), where)
+            return
+        seen.add((int(ac), int(bc)))
+    rep.check(seen == {(0, 0), (0, 1), (1, 0), (1, 1)}, rule, meth.fq + ": the four block updates tile the 2n_i x 2n_j block of the sensor pair",
+              "quadrants written: %s" % sorted(seen), meth.where())
+
+
 def assembly_rules(rep, ix, cls, meth, wc, tuple_kinds, fun_kind):
     I = Interp(ix, opaque={wc.fq})          # the pool worker is inlined: a result read back in loop order is the call itself
     o = Obj(cls)
     args = [Rat.sym("threads", ("int",))] if len(meth.params) > 1 else []
     I.paths(meth, args, self_obj=o)
-    stores = [s for s in I.store_log if s[0] == meth.fq and s[1] == "self.covariance_matrix"]
+    # block updates made by the assembly method itself or by the helper methods it calls (inlined: one interpreter run)
+    stores = [s for s in I.store_log if s[1] == "self.covariance_matrix" and (s[0] == meth.fq or s[0].startswith(cls.fq + "."))]
     loops = [l for l in I.loop_log if l[0] == meth.fq]
     tag = meth.fq
     if len(stores) != 4:
